@@ -126,18 +126,18 @@ func ShufflePerm(ts int64, n int) []int {
 
 // ---- recording a history -------------------------------------------------------
 type CaseRec struct {
-	Id        string
-	Node      *Node
-	Universe  []string
-	Ops       []string
-	Digests   []string
-	OpKinds   []string
-	outs      map[string]bool // "v y"
-	stamps    map[int64]bool
-	sigs      map[string]string // key -> sexp line
-	addrs     map[string]string
-	Mon       *ChainMonitor
-	admitted  map[string]bool
+	Id       string
+	Node     *Node
+	Universe []string
+	Ops      []string
+	Digests  []string
+	OpKinds  []string
+	outs     map[string]bool // "v y"
+	stamps   map[int64]bool
+	sigs     map[string]string // key -> sexp line
+	addrs    map[string]string
+	Mon      *ChainMonitor
+	admitted map[string]bool
 }
 
 func NewCaseRec(id string, n *Node, universe []string) *CaseRec {
